@@ -98,6 +98,7 @@ Qed.
 Section WithConfig.
 Variable c : config.
 Variable p : list (Z * fault).
+Variable kidle : nat.              (* how many MainLoop.entering_idle callbacks the event loop holds *)
 Notation P := (plan_at p).
 
 (* PopUpTarget's bookkeeping is consistent: it remembers a pop-up widget only while its current widget
@@ -110,17 +111,17 @@ Definition pinv (s : st) : Prop :=
    the pop-up bookkeeping stays consistent *)
 Definition Keeps (s s' : st) : Prop :=
   scr s' = scr s /\ set_mode 25 true (tm s') = set_mode 25 true (tm s) /\ (c_hook c = false -> tm s' = tm s) /\
-  (pinv s -> pinv s').
+  (pinv s -> pinv s') /\ idle_reg s' = idle_reg s /\ connected s' = connected s.
 
 Lemma Keeps_refl s : Keeps s s.
-Proof. unfold Keeps. split; [reflexivity|split; [reflexivity|split; [intros; reflexivity|intros H; exact H]]]. Qed.
+Proof. unfold Keeps. split; [reflexivity|split; [reflexivity|split; [intros; reflexivity|split; [intros H; exact H|split; reflexivity]]]]. Qed.
 Lemma Keeps_trans a b d : Keeps a b -> Keeps b d -> Keeps a d.
 Proof.
-  intros (A1 & A2 & A3 & A4) (B1 & B2 & B3 & B4). unfold Keeps.
-  split; [congruence|split; [congruence|split; [|intros H; apply B4; apply A4; exact H]]].
+  intros (A1 & A2 & A3 & A4 & A5 & A6) (B1 & B2 & B3 & B4 & B5 & B6). unfold Keeps.
+  split; [congruence|split; [congruence|split; [|split; [intros H; apply B4; apply A4; exact H|split; congruence]]]].
   intros H. rewrite (B3 H). apply A3. exact H.
 Qed.
-Ltac keeps_triv := unfold Keeps, pinv; cbn [scr tm t_pop t_overlay]; repeat split; try (intros; reflexivity); try tauto.
+Ltac keeps_triv := unfold Keeps, pinv; cbn [scr tm t_pop t_overlay idle_reg connected]; repeat split; try (intros; reflexivity); try tauto.
 
 Definition outcome {A} (r0 : res A) (o : option fault) : res A :=
   match o with None => r0 | Some f => RErr (exn_of f) end.
@@ -130,7 +131,7 @@ Definition outcome {A} (r0 : res A) (o : option fault) : res A :=
    the current index; its result is [r0] when no fault was hit (and then [Post] holds) and exactly the
    planned exception otherwise. *)
 Definition SemA {A} (Pre : st -> Prop) (m : M A) (L : list tev) (r0 : res A) (Post : st -> Prop) : Prop :=
-  forall s, s_started (scr s) = true -> pinv s -> Pre s ->
+  forall s, s_started (scr s) = true -> pinv s -> idle_reg s = kidle -> Pre s ->
     Keeps s (snd (m s)) /\
     acts (snd (m s)) = acts s ++ fst (cut P (n s) L) /\
     n (snd (m s)) = n s + ncb (fst (cut P (n s) L)) /\
@@ -147,7 +148,7 @@ Definition Sem {A} (m : M A) (L : list tev) (v : A) : Prop := forall o, SemO o m
 Lemma SemA_bind {A B} Pre (m : M A) (f : A -> M B) L1 L2 v r Q1 Q2 :
   SemA Pre m L1 (ROk v) Q1 -> SemA Q1 (f v) L2 r Q2 -> SemA Pre (bindM m f) (L1 ++ L2) r Q2.
 Proof.
-  intros Hm Hf s Hs Hp Ha. destruct (Hm s Hs Hp Ha) as (K1 & A1 & N1 & R1 & Q1').
+  intros Hm Hf s Hs Hp Hk Ha. destruct (Hm s Hs Hp Hk Ha) as (K1 & A1 & N1 & R1 & Q1').
   unfold bindM. rewrite cut_app.
   destruct (m s) as [r1 s1] eqn:E. cbn [fst snd] in *.
   destruct (snd (cut P (n s) L1)) as [ft|] eqn:C1; cbn [outcome] in R1; subst r1.
@@ -155,7 +156,8 @@ Proof.
     rewrite C1. discriminate.
   - assert (Hs1 : s_started (scr s1) = true) by (destruct K1 as [K _]; rewrite K; exact Hs).
     assert (Hp1 : pinv s1) by (apply K1; exact Hp).
-    destruct (Hf s1 Hs1 Hp1 (Q1' eq_refl)) as (K2 & A2 & N2 & R2 & Q2'). rewrite N1 in *.
+    assert (Hk1 : idle_reg s1 = kidle) by (destruct K1 as (_ & _ & _ & _ & K5 & _); rewrite K5; exact Hk).
+    destruct (Hf s1 Hs1 Hp1 Hk1 (Q1' eq_refl)) as (K2 & A2 & N2 & R2 & Q2'). rewrite N1 in *.
     destruct (f v s1) as [r2 s2]. cbn [fst snd] in *.
     split; [eapply Keeps_trans; eassumption|].
     split; [rewrite A2, A1, app_assoc; reflexivity|].
@@ -164,12 +166,12 @@ Qed.
 
 Lemma SemA_weaken {A} (Pre Pre' : st -> Prop) (m : M A) L r Q :
   (forall s, Pre' s -> Pre s) -> SemA Pre m L r Q -> SemA Pre' m L r Q.
-Proof. intros H Hm s Hs Hp Ha. apply Hm; auto. Qed.
+Proof. intros H Hm s Hs Hp Hk Ha. apply Hm; auto. Qed.
 
 Lemma SemA_post {A} (Pre : st -> Prop) (m : M A) L r (Q Q' : st -> Prop) :
   (forall s, Q s -> Q' s) -> SemA Pre m L r Q -> SemA Pre m L r Q'.
 Proof.
-  intros H Hm s Hs Hp Ha. destruct (Hm s Hs Hp Ha) as (K & A1 & N1 & R1 & Q1).
+  intros H Hm s Hs Hp Hk Ha. destruct (Hm s Hs Hp Hk Ha) as (K & A1 & N1 & R1 & Q1).
   split; [exact K|split; [exact A1|split; [exact N1|split; [exact R1|intros C; apply H; apply Q1; exact C]]]].
 Qed.
 
@@ -199,7 +201,7 @@ Lemma SemA_quiet {A} (Pre Post : st -> Prop) (m : M A) (v : A) :
   (forall s, Pre s -> Post (snd (m s))) ->
   SemA Pre m [] (ROk v) Post.
 Proof.
-  intros H HQ s Hs Hp Ha. destruct (H s) as (R & N & A1 & K).
+  intros H HQ s Hs Hp Hk Ha. destruct (H s) as (R & N & A1 & K).
   cbn [cut fst snd ncb outcome]. rewrite app_nil_r, Z.add_0_r.
   split; [exact K|split; [exact A1|split; [exact N|split; [exact R|intros _; apply HQ; exact Ha]]]].
 Qed.
@@ -216,19 +218,19 @@ Proof. intros; eapply Sem_bind; eassumption. Qed.
 
 Lemma SemA_get {A B} Pre (g : st -> A) (k : A -> M B) L r Q :
   (forall x, SemA (fun s => Pre s /\ g s = x) (k x) L r Q) -> SemA Pre (bindM (get g) k) L r Q.
-Proof. intros H s Hs Hp Ha. unfold bindM, get. apply (H (g s)); auto. Qed.
+Proof. intros H s Hs Hp Hk Ha. unfold bindM, get. apply (H (g s)); auto. Qed.
 
 Lemma Sem_get {A B} (g : st -> A) (k : A -> M B) L w :
   (forall x, Sem (k x) L w) -> Sem (bindM (get g) k) L w.
-Proof. intros H o al s Hs Hp Ha. unfold bindM, get. apply H; assumption. Qed.
+Proof. intros H o al s Hs Hp Hk Ha. unfold bindM, get. apply H; assumption. Qed.
 
 Lemma SemO_get {A B} o o' (g : st -> A) (k : A -> M B) L w :
   (forall x, SemO o (k x) L w o') -> SemO o (bindM (get g) k) L w o'.
-Proof. intros H al s Hs Hp Ha. unfold bindM, get. apply H; assumption. Qed.
+Proof. intros H al s Hs Hp Hk Ha. unfold bindM, get. apply H; assumption. Qed.
 
 Lemma Sem_cb t : is_cb t = true -> Sem (cb p t) [t] tt.
 Proof.
-  intros Ht o al s Hs Hp Ha. unfold cb. cbn [cut]. rewrite Ht.
+  intros Ht o al s Hs Hp Hk Ha. unfold cb. cbn [cut]. rewrite Ht.
   assert (Hact : is_act t = true) by (unfold is_act; rewrite Ht; reflexivity).
   destruct (P (n s)) eqn:Ep; cbn [fst snd ncb outcome]; rewrite ?acts_cons, ?Hact, ?Ht;
     (split; [keeps_triv|split; [reflexivity|split; [cbn [n]; lia|split; [reflexivity|]]]]).
@@ -245,7 +247,7 @@ Qed.
 
 Lemma Sem_emit_draw : Sem (emit TDraw) [TDraw] tt.
 Proof.
-  intros o al s Hs Hp Ha. unfold emit. cbn [fst snd cut ncb outcome is_cb]. rewrite acts_cons. cbn [is_act is_cb orb].
+  intros o al s Hs Hp Hk Ha. unfold emit. cbn [fst snd cut ncb outcome is_cb]. rewrite acts_cons. cbn [is_act is_cb orb].
   split; [keeps_triv|split; [reflexivity|split; [cbn [n]; lia|split; [reflexivity|]]]].
   intros _. exact Ha.
 Qed.
@@ -272,7 +274,7 @@ Proof.
 Qed.
 Lemma SemA_get_alarms {B} al o (k : list alarm -> M B) L r Q :
   SemA (G al o) (k al) L r Q -> SemA (G al o) (bindM (get alarms) k) L r Q.
-Proof. intros H s Hs Hp Ha. unfold bindM, get. destruct Ha as [Ha Ho]. rewrite Ha. apply H; [assumption|assumption|split; assumption]. Qed.
+Proof. intros H s Hs Hp Hk Ha. unfold bindM, get. destruct Ha as [Ha Ho]. rewrite Ha. apply H; [assumption|assumption|assumption|split; assumption]. Qed.
 
 (* the launcher opens / closes its pop-up *)
 Lemma SemO_set_l_pop o b : SemO o (set_l_pop b) [] tt b.
@@ -332,15 +334,15 @@ Definition overlay_bookkeeping : M unit :=
 Lemma SemA_overlay_bookkeeping al o :
   c_pop_ups c = true -> SemA (G al o) overlay_bookkeeping [] (ROk tt) (Synced al o).
 Proof.
-  intros Epu s Hs Hp Ha.
+  intros Epu s Hs Hp Hk Ha.
   destruct s as [n0 tr0 sc0 tm0 sk0 cn0 ir0 hk0 al0 ws0 bo0 bc0 lp0 tp0 ov0].
   unfold pinv, Synced, pop_shown, G in *. cbn [t_pop t_overlay alarms l_pop scr] in *. destruct Ha as [-> ->]. rewrite Epu.
   cbn [cut fst snd ncb outcome]. rewrite app_nil_r, Z.add_0_r.
   unfold overlay_bookkeeping, bindM, get, set_t_pop, set_t_overlay, ret, raise. cbn [l_pop t_pop t_overlay].
   destruct Hp as [Hp1 Hp2].
   destruct o; [destruct tp0; [rewrite (Hp1 eq_refl)|]|]; cbn;
-    (split; [unfold Keeps, pinv; cbn [scr tm t_pop t_overlay];
-             split; [reflexivity|split; [reflexivity|split; [intros; reflexivity|intros _; split; [auto|intros _; exact Epu]]]]|]);
+    (split; [unfold Keeps, pinv; cbn [scr tm t_pop t_overlay idle_reg connected];
+             split; [reflexivity|split; [reflexivity|split; [intros; reflexivity|split; [intros _; split; [auto|intros _; exact Epu]|split; reflexivity]]]]|]);
     (split; [reflexivity|split; [reflexivity|split; [reflexivity|intros _; cbn [alarms l_pop t_overlay]; auto]]]).
 Qed.
 
@@ -352,7 +354,7 @@ Proof.
       by (unfold update_overlay; rewrite Epu; reflexivity).
     rewrite E. eapply SemA_conv; [eapply SemA_step; [apply Sem_cb; reflexivity|apply SemA_overlay_bookkeeping; exact Epu]|reflexivity].
   - unfold update_overlay. rewrite Epu.
-    intros s Hs Hp [Ha Ho]. cbn [ret fst snd cut ncb outcome]. rewrite app_nil_r, Z.add_0_r.
+    intros s Hs Hp Hk [Ha Ho]. cbn [ret fst snd cut ncb outcome]. rewrite app_nil_r, Z.add_0_r.
     split; [apply Keeps_refl|]. split; [reflexivity|split; [reflexivity|split; [reflexivity|]]].
     intros _. split; [split; assumption|]. unfold pop_shown. rewrite Epu. cbn [andb].
     destruct (t_overlay s) eqn:E; [|reflexivity].
@@ -365,7 +367,7 @@ Proof. intros o al. eapply SemA_post; [|apply SemA_update_overlay]. intros s [H 
 Lemma SemA_get_overlay {B} al o (k : bool -> M B) L r Q :
   SemA (G al o) (k (pop_shown c o)) L r Q -> SemA (Synced al o) (bindM (get t_overlay) k) L r Q.
 Proof.
-  intros H s Hs Hp [Ha Hov]. unfold bindM, get. rewrite Hov. apply H; assumption.
+  intros H s Hs Hp Hk [Ha Hov]. unfold bindM, get. rewrite Hov. apply H; assumption.
 Qed.
 
 Lemma Sem_widget_changed : Sem widget_changed [] tt.
@@ -511,11 +513,11 @@ Qed.
 (* ---------- redraw ---------- *)
 Lemma Sem_get_started {B} (k : bool -> M B) L w :
   Sem (k true) L w -> Sem (bindM (get (fun s => s_started (scr s))) k) L w.
-Proof. intros H o al s Hs Hp Ha. unfold bindM, get. rewrite Hs. apply H; assumption. Qed.
+Proof. intros H o al s Hs Hp Hk Ha. unfold bindM, get. rewrite Hs. apply H; assumption. Qed.
 
 Lemma SemO_get_started {B} o o' (k : bool -> M B) L w :
   SemO o (k true) L w o' -> SemO o (bindM (get (fun s => s_started (scr s))) k) L w o'.
-Proof. intros H al s Hs Hp Ha. unfold bindM, get. rewrite Hs. apply H; assumption. Qed.
+Proof. intros H al s Hs Hp Hk Ha. unfold bindM, get. rewrite Hs. apply H; assumption. Qed.
 
 Lemma Sem_screen_draw_screen : Sem (screen_draw_screen c) [TDraw] tt.
 Proof.
@@ -558,41 +560,91 @@ Proof.
   eapply SemO_conv; [eapply SemO_step; [apply Sem_set_buf_ok|apply SemO_update]|apply app_nil_l].
 Qed.
 
-Lemma SemO_do_round o r : SemO o (do_round c p r) (fst (spec_round c o r)) tt (snd (spec_round c o r)).
+Lemma SemA_pop_alarm al o :
+  SemA (G al o) pop_alarm [] (ROk (match al with [] => None | a :: _ => Some a end)) (G (tl al) o).
+Proof.
+  intros s Hs Hp Hk [Ha Ho]. unfold pop_alarm, bindM, get. rewrite Ha. destruct al as [|a r].
+  - cbn [ret fst snd cut ncb outcome tl]. rewrite app_nil_r, Z.add_0_r.
+    split; [apply Keeps_refl|]. split; [reflexivity|split; [reflexivity|split; [reflexivity|]]].
+    intros _. split; assumption.
+  - unfold set_alarms, ret. cbn [fst snd cut ncb outcome tl]. rewrite app_nil_r, Z.add_0_r.
+    split; [keeps_triv|]. split; [reflexivity|split; [reflexivity|split; [reflexivity|]]].
+    intros _. split; [reflexivity|exact Ho].
+Qed.
+
+(* the due alarms fire one by one, in heap order; afterwards the heap is empty *)
+Lemma SemA_fire_n o : forall k al, (length al <= k)%nat ->
+  SemA (G al o) (fire_n c p k) (flat_map (spec_alarm c o) al) (ROk tt) (G [] o).
+Proof.
+  induction k as [|k IH]; intros al Hl; cbn [fire_n].
+  - destruct al; [apply Sem_ret|cbn [length] in Hl; lia].
+  - eapply SemA_conv; [eapply SemA_bind; [apply SemA_pop_alarm|]|apply app_nil_l].
+    destruct al as [|a r]; cbn [tl flat_map].
+    + apply Sem_ret.
+    + eapply SemA_bind; [apply SemO_fire_alarm|]. apply IH. cbn [length] in Hl. lia.
+Qed.
+
+Lemma SemA_fire_pending al o :
+  SemA (G al o) (fire_pending c p) (flat_map (spec_alarm c o) al) (ROk tt) (G [] o).
+Proof. unfold fire_pending. apply SemA_get_alarms. apply SemA_fire_n. lia. Qed.
+
+(* the idle phase: every registered MainLoop.entering_idle *)
+Lemma SemO_repeat_idle o : forall k, SemO o (repeat_m k (entering_idle c p)) (spec_idle c k o) tt o.
+Proof.
+  induction k as [|k IH]; cbn [repeat_m spec_idle]; [apply Sem_ret|].
+  eapply SemO_bind; [apply SemO_entering_idle|exact IH].
+Qed.
+
+Lemma SemO_idle_round o : SemO o (idle_round c p) (spec_idle c kidle o) tt o.
+Proof.
+  intros al s Hs Hp Hk Ha. unfold idle_round, bindM, get. rewrite Hk. apply SemO_repeat_idle; assumption.
+Qed.
+
+Lemma SemO_deliver_fd o e :
+  SemO o (deliver_fd c p e) (fst (spec_fd_event c o e)) tt (snd (spec_fd_event c o e)).
+Proof. destruct e; cbn [deliver_fd spec_fd_event]; try apply SemO_deliver. cbn [fst snd]. apply Sem_ret. Qed.
+
+Lemma SemA_do_round o r :
+  SemA (G [] o) (do_round c p r) (fst (spec_round c kidle o r)) (ROk tt) (G [] (snd (spec_round c kidle o r))).
 Proof.
   unfold do_round, spec_round. cbn [fst snd].
-  eapply SemO_bind; [apply SemO_for_each; intros o1 e; apply SemO_deliver|].
-  eapply SemO_conv; [eapply SemO_bind; [apply SemO_entering_idle|apply Sem_emit_silent; reflexivity]|apply app_nil_r].
+  eapply SemA_conv; [eapply SemA_bind; [apply SemA_get_alarms; apply SemA_set_alarms|]|apply app_nil_l].
+  cbn [app].
+  eapply SemA_bind; [apply SemO_for_each; intros o1 e; apply SemO_deliver_fd|].
+  eapply SemA_bind; [apply SemA_fire_pending|].
+  eapply SemA_conv; [eapply SemA_bind; [apply SemO_idle_round|apply Sem_emit_silent; reflexivity]|apply app_nil_r].
+Qed.
+
+Lemma SemA_rounds : forall rounds o,
+  SemA (G [] o) (for_each (do_round c p) rounds) (fst (thread (spec_round c kidle) o rounds)) (ROk tt)
+       (G [] (snd (thread (spec_round c kidle) o rounds))).
+Proof.
+  induction rounds as [|r rounds IH]; intros o; cbn [for_each thread fst snd]; [apply Sem_ret|].
+  eapply SemA_bind; [apply SemA_do_round|apply IH].
 Qed.
 
 Lemma SemA_quit al o : SemA (G al o) quit [] (RErr ExitMainLoop) (fun _ => True).
 Proof.
-  intros s Hs Hp Ha. unfold quit, bindM, emit, raise. cbn [fst snd cut ncb outcome].
+  intros s Hs Hp Hk Ha. unfold quit, bindM, emit, raise. cbn [fst snd cut ncb outcome].
   rewrite acts_cons. cbn [is_act is_cb orb]. rewrite !app_nil_r, Z.add_0_r.
   split; [keeps_triv|]. repeat split; reflexivity.
 Qed.
 
-Definition spec_loop (al : list alarm) (rounds : list (list event)) : list tev :=
-  flat_map (spec_alarm c false) al ++ spec_draw c false ++ fst (thread (spec_round c) false rounds).
-
 (* the body of event_loop.run(), before ExitMainLoop is swallowed *)
 Definition loop_inner (rounds : list (list event)) : M unit :=
-  bindM (get alarms) (fun al =>
-  bindM (set_alarms []) (fun _ =>
-  bindM (for_each (fire_alarm c p) al) (fun _ =>
-  bindM (entering_idle c p) (fun _ =>
+  bindM (fire_pending c p) (fun _ =>
+  bindM (idle_round c p) (fun _ =>
   bindM (emit TWait) (fun _ =>
-  bindM (for_each (do_round c p) rounds) (fun _ => quit)))))).
+  bindM (for_each (do_round c p) rounds) (fun _ => quit)))).
 
-Lemma SemA_loop_inner al rounds :
-  SemA (G al false) (loop_inner rounds) (spec_loop al rounds) (RErr ExitMainLoop) (fun _ => True).
+Lemma SemA_loop_inner al o rounds :
+  SemA (G al o) (loop_inner rounds) (spec_loop c kidle o al rounds) (RErr ExitMainLoop) (fun _ => True).
 Proof.
-  unfold loop_inner, spec_loop. apply SemA_get_alarms.
-  eapply SemA_conv; [eapply SemA_bind; [apply SemA_set_alarms|]|apply app_nil_l].
-  eapply SemA_bind; [apply SemO_fire_alarms|].
-  eapply SemA_bind; [apply SemO_entering_idle|].
+  unfold loop_inner, spec_loop.
+  eapply SemA_bind; [apply SemA_fire_pending|].
+  eapply SemA_bind; [apply SemO_idle_round|].
   eapply SemA_conv; [eapply SemA_step; [apply Sem_emit_silent; reflexivity|]|apply app_nil_l].
-  eapply SemA_conv; [eapply SemA_bind; [apply SemO_for_each; intros o1 r; apply SemO_do_round|apply SemA_quit]|apply app_nil_r].
+  eapply SemA_conv; [eapply SemA_bind; [apply SemA_rounds|apply SemA_quit]|apply app_nil_r].
 Qed.
 
 (* the result of run(): ExitMainLoop (planned, or the harness's final one) is swallowed *)
@@ -600,17 +652,17 @@ Definition loop_result (o : option fault) : res unit :=
   match o with Some (FRaise e) => RErr (UserExc e) | _ => ROk tt end.
 
 Lemma event_loop_run_sem rounds s :
-  s_started (scr s) = true -> pinv s -> l_pop s = false ->
-  let L := spec_loop (alarms s) rounds in
+  s_started (scr s) = true -> pinv s -> idle_reg s = kidle ->
+  let L := spec_loop c kidle (l_pop s) (alarms s) rounds in
   let rs := event_loop_run c p rounds s in
   Keeps s (snd rs) /\
   acts (snd rs) = acts s ++ fst (cut P (n s) L) /\
   n (snd rs) = n s + ncb (fst (cut P (n s) L)) /\
   fst rs = loop_result (snd (cut P (n s) L)).
 Proof.
-  intros Hs Hp Ho L rs.
+  intros Hs Hp Hk L rs.
   assert (E : rs = suppress_exit (loop_inner rounds) s) by reflexivity.
-  destruct (SemA_loop_inner (alarms s) rounds s Hs Hp (conj eq_refl Ho)) as (K & A & N & R & _).
+  destruct (SemA_loop_inner (alarms s) (l_pop s) rounds s Hs Hp Hk (conj eq_refl eq_refl)) as (K & A & N & R & _).
   fold L in A, N, R. rewrite E. unfold suppress_exit.
   destruct (loop_inner rounds s) as [r s1]. cbn [fst snd] in *.
   destruct (snd (cut P (n s) L)) as [[|e]|]; cbn [outcome exn_of] in R; subst r; cbn [fst snd loop_result];
@@ -620,18 +672,6 @@ Qed.
 (* ---------- _run_screen_event_loop ---------- *)
 Definition pend (next : option alarm) (al : list alarm) : list alarm :=
   match next with Some a => a :: al | None => [] end.
-
-Lemma SemA_pop_alarm al o :
-  SemA (G al o) pop_alarm [] (ROk (match al with [] => None | a :: _ => Some a end)) (G (tl al) o).
-Proof.
-  intros s Hs Hp [Ha Ho]. unfold pop_alarm, bindM, get. rewrite Ha. destruct al as [|a r].
-  - cbn [ret fst snd cut ncb outcome tl]. rewrite app_nil_r, Z.add_0_r.
-    split; [apply Keeps_refl|]. split; [reflexivity|split; [reflexivity|split; [reflexivity|]]].
-    intros _. split; assumption.
-  - unfold set_alarms, ret. cbn [fst snd cut ncb outcome tl]. rewrite app_nil_r, Z.add_0_r.
-    split; [keeps_triv|]. split; [reflexivity|split; [reflexivity|split; [reflexivity|]]].
-    intros _. split; [reflexivity|exact Ho].
-Qed.
 
 Lemma SemA_fire_all o : forall fuel next,
   SemA (G fuel o) (fire_all c p fuel next) (flat_map (spec_alarm c o) (pend next fuel)) (ROk tt)
@@ -742,9 +782,10 @@ Lemma hook_start_state c ti w t cn :
   fst rs = ROk tt /\ n (snd rs) = 0 /\ scr (snd rs) = SC c T0 /\ tm (snd rs) = TM c T0 /\
   alarms (snd rs) = map AUser (c_pre_alarms c) ++ [AEnteringIdle] /\
   acts (snd rs) = [] /\
-  (l_pop (snd rs) = false /\ t_pop (snd rs) = false /\ t_overlay (snd rs) = false).
+  (l_pop (snd rs) = false /\ t_pop (snd rs) = false /\ t_overlay (snd rs) = false) /\
+  idle_reg (snd rs) = 1%nat.
 Proof.
-  destruct c as [hook filt unh hm pu pa fo ia ps pre sel hasm wk wm cur lau pk]. cbn [c_hook]. intros ->.
+  destruct c as [hook filt unh hm pu pa fo ia ps pre sel hasm wk wm cur lau pk sr]. cbn [c_hook]. intros ->.
   Time destruct hm, pa, fo, ia, ps; vm_compute; repeat split; reflexivity.
 Qed.
 
@@ -809,8 +850,13 @@ Proof.
   unfold mouse_tracking. destruct b;
     (apply Silent_bind; [apply Silent_write_mode|intros; apply Silent_bind; [apply Silent_write_mode|intros; apply Silent_write_mode]]).
 Qed.
+Lemma filter_reset_trace k : filter is_act (rev (reset_trace k)) = [].
+Proof. induction k as [|k IH]; cbn [reset_trace rev]; [reflexivity|]. rewrite !filter_app, IH. reflexivity. Qed.
 Lemma Silent_emit_descriptors_changed : Silent emit_descriptors_changed.
-Proof. unfold emit_descriptors_changed, reset_input_descriptors, unhook_event_loop, hook_event_loop. silent_all. Qed.
+Proof.
+  intros s. unfold emit_descriptors_changed. cbn [fst snd n]. split; [|reflexivity].
+  unfold acts. cbn [tr]. rewrite rev_app_distr, filter_app, filter_reset_trace, app_nil_r. reflexivity.
+Qed.
 Lemma Silent_signal_restore : Silent signal_restore.
 Proof. unfold signal_restore. silent_all. Qed.
 Lemma Silent_signal_init : Silent signal_init.
@@ -849,61 +895,150 @@ Proof.
   repeat first [silent_step | apply Silent_screen_start | apply Silent_set_mouse_tracking].
 Qed.
 
+(* what stop() leaves: the terminal as before run(), the Screen object stopped, everything else alone *)
+Definition StoppedFrom (c : config) (T0 : term) (s2 s3 : st) (ir : nat) : Prop :=
+  tm s3 = T0 /\ scr s3 = set_started false (SC c T0) /\ idle_reg s3 = ir /\
+  alarms s3 = alarms s2 /\ l_pop s3 = l_pop s2 /\ t_pop s3 = t_pop s2 /\ t_overlay s3 = t_overlay s2.
+
 (* stopping the display from any state the loop can leave behind *)
 Lemma hook_stop_state c ti w t cn (s2 : st) :
   c_hook c = true ->
   let T0 := normal_term ti w t cn in
-  let T1 := normal_term ti w t cn in
   scr s2 = SC c T0 -> set_mode 25 true (tm s2) = TM c T0 ->
-  (fst (screen_stop c s2) = ROk tt /\ tm (snd (screen_stop c s2)) = T1 /\
-   s_started (scr (snd (screen_stop c s2))) = false) /\
-  (fst (ml_stop c s2) = ROk tt /\ tm (snd (ml_stop c s2)) = T1 /\
-   s_started (scr (snd (ml_stop c s2))) = false).
+  (fst (screen_stop c s2) = ROk tt /\ StoppedFrom c T0 s2 (snd (screen_stop c s2)) (idle_reg s2)) /\
+  (fst (ml_stop c s2) = ROk tt /\ StoppedFrom c T0 s2 (snd (ml_stop c s2)) (pred (idle_reg s2))).
 Proof.
-  destruct c as [hook filt unh hm pu pa fo ia ps pre sel hasm wk wm cur lau pk]. cbn [c_hook]. intros ->.
+  destruct c as [hook filt unh hm pu pa fo ia ps pre sel hasm wk wm cur lau pk sr]. cbn [c_hook]. intros ->.
   destruct s2 as [n2 tr2 sc2 tm2 sk2 cn2 ir2 hk2 al2 ws2 bo2 bc2 lp2 tp2 ov2]. cbn [scr tm]. intros Hsc Htm. subst sc2.
   destruct tm2 as [a1 a2 a3 a4 a5 a6 a7 a8 a9 a10 a11 a12].
   unfold TM, normal_term in Htm. cbn [c_handle_mouse c_paste c_focus c_isatty t_tios t_winch t_tstp t_cont fst] in Htm.
   change (set_mode 25 true (Term a1 a2 a3 a4 a5 a6 a7 a8 a9 a10 a11 a12)) with (Term a1 true a3 a4 a5 a6 a7 a8 a9 a10 a11 a12) in Htm.
   injection Htm as E1 E3 E4 E5 E6 E7 E8 E9 E10 E11 E12. subst.
-  Time destruct hm, pa, fo, ia, cn2; vm_compute; repeat split; reflexivity.
+  unfold StoppedFrom.
+  destruct hm, pa, fo, ia, cn2; vm_compute; repeat split; reflexivity.
 Qed.
 
 Lemma TM_cursor c T0 : set_mode 25 true (TM c T0) = TM c T0.
 Proof. reflexivity. Qed.
 
+(* a display that may be started: never started, or stopped by an earlier run() *)
+Definition stopped_scr (c : config) (T0 : term) (sc : screen) : Prop :=
+  sc = fresh_screen \/ sc = set_started false (SC c T0).
+
+(* MainLoop.start() from any such state *)
+Lemma hook_restart_state c ti w t cn (s : st) :
+  c_hook c = true ->
+  let T0 := normal_term ti w t cn in
+  stopped_scr c T0 (scr s) -> tm s = T0 ->
+  let rs := ml_start c s in
+  fst rs = ROk tt /\ scr (snd rs) = SC c T0 /\ tm (snd rs) = TM c T0 /\
+  alarms (snd rs) = alarms s ++ [AEnteringIdle] /\ idle_reg (snd rs) = S (idle_reg s) /\
+  l_pop (snd rs) = l_pop s /\ t_pop (snd rs) = t_pop s /\ t_overlay (snd rs) = t_overlay s.
+Proof.
+  destruct c as [hook filt unh hm pu pa fo ia ps pre sel hasm wk wm cur lau pk sr]. cbn [c_hook]. intros ->.
+  destruct s as [n2 tr2 sc2 tm2 sk2 cn2 ir2 hk2 al2 ws2 bo2 bc2 lp2 tp2 ov2]. cbn [scr tm]. intros Hsc Htm. subst tm2.
+  destruct Hsc as [-> | ->]; destruct hm, pa, fo, ia; vm_compute; repeat split; reflexivity.
+Qed.
+
 (* ---------- run() on a screen with hook_event_loop ---------- *)
+(* the part of _run after a successful start(): the event loop, then stop() / screen.stop() *)
+Definition run_tail (c : config) (p : list (Z * fault)) (rounds : list (list event)) : M unit :=
+  fun s1 =>
+    match event_loop_run c p rounds s1 with
+    | (RErr e, s2) => (bindM (screen_stop c) (fun _ => raise e)) s2
+    | (ROk _, s2) => ml_stop c s2
+    end.
+
+(* a stopped state from which run() may be called (again) *)
+Definition Restartable (c : config) (T0 : term) (s : st) : Prop :=
+  stopped_scr c T0 (scr s) /\ tm s = T0 /\ pinv c s.
+
+Lemma hook_run_tail c p rounds ti w t cn (s1 : st) :
+  c_hook c = true -> wf_config c ->
+  let T0 := normal_term ti w t cn in
+  scr s1 = SC c T0 -> tm s1 = TM c T0 -> pinv c s1 ->
+  let L := spec_loop c (idle_reg s1) (l_pop s1) (alarms s1) rounds in
+  let ct := cut (plan_at p) (n s1) L in
+  let rs := suppress_exit (run_tail c p rounds) s1 in
+  acts (snd rs) = acts s1 ++ fst ct /\ n (snd rs) = n s1 + ncb (fst ct) /\ fst rs = loop_result (snd ct) /\
+  Restartable c T0 (snd rs) /\
+  idle_reg (snd rs) = (match snd ct with Some (FRaise _) => idle_reg s1 | _ => pred (idle_reg s1) end).
+Proof.
+  intros Hh Hwf T0 S1 T1 Hpi. cbv zeta.
+  assert (Hst : s_started (scr s1) = true) by (rewrite S1; reflexivity).
+  pose proof (event_loop_run_sem c p (idle_reg s1) Hwf rounds s1 Hst Hpi eq_refl) as H. cbv zeta in H.
+  destruct H as (K & A & N & R).
+  unfold suppress_exit, run_tail.
+  destruct (event_loop_run c p rounds s1) as [r2 s2]. cbn [fst snd] in *.
+  destruct K as (K1 & K2 & _ & K4 & K5 & _). rewrite S1 in K1. rewrite T1, TM_cursor in K2.
+  destruct (hook_stop_state c ti w t cn s2 Hh K1 K2) as [(F1 & F2 & F3 & F4 & F5 & F6 & F7 & F8) (G1 & G2 & G3 & G4 & G5 & G6 & G7 & G8)].
+  destruct (Silent_screen_stop c s2) as [Q1 Q2]. destruct (Silent_ml_stop c s2) as [Q3 Q4].
+  assert (Hp2 : pinv c s2) by (apply K4; exact Hpi).
+  set (ct := cut (plan_at p) (n s1) (spec_loop c (idle_reg s1) (l_pop s1) (alarms s1) rounds)) in *.
+  destruct (snd ct) as [[|e]|]; cbn [loop_result] in R |- *; subst r2.
+  - destruct (ml_stop c s2) as [r3 s3]. cbn [fst snd] in *. subst r3. cbn [fst snd].
+    split; [congruence|split; [congruence|split; [reflexivity|split; [|congruence]]]].
+    split; [right; exact G3|split; [exact G2|]]. unfold pinv in *. rewrite G7, G8. exact Hp2.
+  - unfold bindM. destruct (screen_stop c s2) as [r3 s3]. cbn [fst snd] in *. subst r3. cbn [raise fst snd].
+    split; [congruence|split; [congruence|split; [reflexivity|split; [|congruence]]]].
+    split; [right; exact F3|split; [exact F2|]]. unfold pinv in *. rewrite F7, F8. exact Hp2.
+  - destruct (ml_stop c s2) as [r3 s3]. cbn [fst snd] in *. subst r3. cbn [fst snd].
+    split; [congruence|split; [congruence|split; [reflexivity|split; [|congruence]]]].
+    split; [right; exact G3|split; [exact G2|]]. unfold pinv in *. rewrite G7, G8. exact Hp2.
+Qed.
+
+Lemma ml_run_hook_unfold c p rounds inputs s s1 :
+  ml_start c s = (ROk tt, s1) -> ml_run c p rounds inputs s = suppress_exit (run_tail c p rounds) s1.
+Proof. intros E. unfold ml_run, ml_run_inner, suppress_exit, run_tail. rewrite E. reflexivity. Qed.
+
+(* run() from ANY restartable state: the state a first run() starts from, or what an earlier run() left -
+   whether it ended normally or by an exception, at whatever point *)
+Theorem hook_rerun c p rounds inputs ti w t cn (s : st) :
+  c_hook c = true -> wf_config c ->
+  let T0 := normal_term ti w t cn in
+  Restartable c T0 s ->
+  let L := spec_loop c (S (idle_reg s)) (l_pop s) (alarms s ++ [AEnteringIdle]) rounds in
+  let ct := cut (plan_at p) (n s) L in
+  let rs := ml_run c p rounds inputs s in
+  acts (snd rs) = acts s ++ fst ct /\ n (snd rs) = n s + ncb (fst ct) /\ fst rs = loop_result (snd ct) /\
+  Restartable c T0 (snd rs) /\
+  idle_reg (snd rs) = (match snd ct with Some (FRaise _) => S (idle_reg s) | _ => idle_reg s end).
+Proof.
+  intros Hh Hwf T0 (Hsc & Htm & Hpi). cbv zeta.
+  destruct (hook_restart_state c ti w t cn s Hh Hsc Htm) as (R1 & S1 & T1 & A1 & I1 & LP & TP & OV).
+  destruct (Silent_ml_start c s) as [Ac1 N1].
+  destruct (ml_start c s) as [r1 s1] eqn:Es. cbn [fst snd] in *. subst r1.
+  rewrite (ml_run_hook_unfold c p rounds inputs s s1 Es).
+  assert (Hp1 : pinv c s1) by (unfold pinv in *; rewrite TP, OV; exact Hpi).
+  pose proof (hook_run_tail c p rounds ti w t cn s1 Hh Hwf S1 T1 Hp1) as H. cbv zeta in H.
+  rewrite I1, LP, A1, N1, Ac1 in H. cbn [pred] in H. exact H.
+Qed.
+
+(* the first run(): what the application does before, then run() *)
 Theorem hook_master c p rounds inputs ti w t cn :
   c_hook c = true -> wf_config c ->
   let T0 := normal_term ti w t cn in
   let rs := session c p rounds inputs (init_st T0) in
   let ct := cut (plan_at p) 0 (spec_hook_session c rounds) in
   acts (snd rs) = fst ct /\ n (snd rs) = ncb (fst ct) /\ fst rs = loop_result (snd ct) /\
-  tm (snd rs) = normal_term ti w t cn /\ s_started (scr (snd rs)) = false.
+  tm (snd rs) = normal_term ti w t cn /\ s_started (scr (snd rs)) = false /\
+  Restartable c T0 (snd rs) /\
+  idle_reg (snd rs) = (match snd ct with Some (FRaise _) => 1%nat | _ => O end).
 Proof.
   intros Hh Hwf. cbv zeta. rewrite session_unfold.
-  destruct (hook_start_state c ti w t cn Hh) as (P1 & R1 & N1 & S1 & T1 & A1 & Ac1 & LP & TP & OV).
+  destruct (hook_start_state c ti w t cn Hh) as (P1 & R1 & N1 & S1 & T1 & A1 & Ac1 & (LP & TP & OV) & I1).
   destruct (prefix c (init_st (normal_term ti w t cn))) as [r0 s0']. cbn [fst snd] in *. subst r0.
-  unfold ml_run, ml_run_inner, suppress_exit.
-  destruct (ml_start c s0') as [r1 s1]. cbn [fst snd] in *. subst r1.
-  assert (Hst : s_started (scr s1) = true) by (rewrite S1; reflexivity).
+  destruct (ml_start c s0') as [r1 s1] eqn:Es. cbn [fst snd] in *. subst r1.
+  rewrite (ml_run_hook_unfold c p rounds inputs s0' s1 Es).
   assert (Hpi : pinv c s1) by (unfold pinv; rewrite TP, OV; split; discriminate).
-  pose proof (event_loop_run_sem c p Hwf rounds s1 Hst Hpi LP) as H. cbv zeta in H.
-  rewrite A1, N1, Ac1 in H. cbn [app] in H.
-  change (spec_loop c (map AUser (c_pre_alarms c) ++ [AEnteringIdle]) rounds) with (spec_hook_session c rounds) in H.
-  destruct H as (K & A & N & R).
-  destruct (event_loop_run c p rounds s1) as [r2 s2]. cbn [fst snd] in *.
-  destruct K as (K1 & K2 & _). rewrite S1 in K1. rewrite T1, TM_cursor in K2.
-  destruct (hook_stop_state c ti w t cn s2 Hh K1 K2) as [(F1 & F2 & F3) (G1 & G2 & G3)].
-  destruct (Silent_screen_stop c s2) as [Q1 Q2]. destruct (Silent_ml_stop c s2) as [Q3 Q4].
-  rewrite Z.add_0_l in N.
-  destruct (snd (cut (plan_at p) 0 (spec_hook_session c rounds))) as [[|e]|]; cbn [loop_result] in R |- *; subst r2.
-  - destruct (ml_stop c s2) as [r3 s3]. cbn [fst snd] in *. subst r3. cbn [fst snd].
-    repeat split; congruence.
-  - unfold bindM. destruct (screen_stop c s2) as [r3 s3]. cbn [fst snd] in *. subst r3. cbn [raise fst snd].
-    repeat split; congruence.
-  - destruct (ml_stop c s2) as [r3 s3]. cbn [fst snd] in *. subst r3. cbn [fst snd].
-    repeat split; congruence.
+  pose proof (hook_run_tail c p rounds ti w t cn s1 Hh Hwf S1 T1 Hpi) as H. cbv zeta in H.
+  rewrite I1, LP, A1, N1, Ac1 in H. cbn [app pred] in H. rewrite Z.add_0_l in H.
+  change (spec_loop c 1 false (map AUser (c_pre_alarms c) ++ [AEnteringIdle]) rounds) with (spec_hook_session c rounds) in H.
+  destruct H as (A & N & R & Re & I).
+  split; [exact A|split; [exact N|split; [exact R|]]].
+  destruct Re as (Hsc & Htm & Hp).
+  split; [exact Htm|]. split; [|split; [split; [exact Hsc|split; [exact Htm|exact Hp]]|exact I]].
+  destruct Hsc as [E|E]; rewrite E; reflexivity.
 Qed.
 
 (* ---------- run() on a screen without hook_event_loop ---------- *)
@@ -919,7 +1054,7 @@ Lemma plain_start_state c ti w t cn :
   acts (snd rs) = [] /\
   (l_pop (snd rs) = false /\ t_pop (snd rs) = false /\ t_overlay (snd rs) = false).
 Proof.
-  destruct c as [hook filt unh hm pu pa fo ia ps pre sel hasm wk wm cur lau pk]. cbn [c_hook]. intros ->.
+  destruct c as [hook filt unh hm pu pa fo ia ps pre sel hasm wk wm cur lau pk sr]. cbn [c_hook]. intros ->.
   destruct hm, ps; vm_compute; repeat split; reflexivity.
 Qed.
 
@@ -930,7 +1065,7 @@ Lemma plain_stop_state c ti w t cn (s2 : st) :
   fst (screen_stop c s2) = ROk tt /\ tm (snd (screen_stop c s2)) = T0 /\
   s_started (scr (snd (screen_stop c s2))) = false.
 Proof.
-  destruct c as [hook filt unh hm pu pa fo ia ps pre sel hasm wk wm cur lau pk]. cbn [c_hook]. intros ->.
+  destruct c as [hook filt unh hm pu pa fo ia ps pre sel hasm wk wm cur lau pk sr]. cbn [c_hook]. intros ->.
   destruct s2 as [n2 tr2 sc2 tm2 sk2 cn2 ir2 hk2 al2 ws2 bo2 bc2 lp2 tp2 ov2]. cbn [scr tm]. intros -> ->.
   vm_compute. repeat split; reflexivity.
 Qed.
@@ -950,7 +1085,7 @@ Proof.
   destruct (ml_start c s0') as [r1 s1]. cbn [fst snd] in *. subst r1.
   assert (Hst : s_started (scr s1) = true) by (rewrite S1; reflexivity).
   assert (Hpi : pinv c s1) by (unfold pinv; rewrite TP, OV; split; discriminate).
-  destruct (SemA_run_screen_event_loop c p Hwf (alarms s1) inputs s1 Hst Hpi (conj eq_refl LP)) as (K & A & N & R & _).
+  destruct (SemA_run_screen_event_loop c p (idle_reg s1) Hwf (alarms s1) inputs s1 Hst Hpi eq_refl (conj eq_refl LP)) as (K & A & N & R & _).
   rewrite A1, N1, Ac1 in *. cbn [app] in A. rewrite Z.add_0_l in N.
   change (spec_draw c false ++ spec_screen_loop c false (map AUser (c_pre_alarms c)) inputs) with (spec_plain_session c inputs) in *.
   unfold finally.
@@ -974,7 +1109,8 @@ Theorem session_master c p rounds inputs ti w t cn :
   tm (snd rs) = normal_term ti w t cn /\ s_started (scr (snd rs)) = false.
 Proof.
   intros Hwf. unfold spec_session. destruct (c_hook c) eqn:Hh.
-  - apply hook_master; assumption.
+  - destruct (hook_master c p rounds inputs ti w t cn Hh Hwf) as (A & N & R & T & S & _).
+    repeat split; assumption.
   - apply plain_master; assumption.
 Qed.
 
@@ -1068,6 +1204,41 @@ Proof.
   split; [exact T|exact S].
 Qed.
 
+(* ---------- run() again ---------- *)
+Lemma restartable_stopped c T0 s : Restartable c T0 s -> s_started (scr s) = false.
+Proof. intros ([E|E] & _); rewrite E; reflexivity. Qed.
+
+(* after the first session - whatever the plan: normal end, ExitMainLoop or an exception at any point - the
+   state is restartable; the only thing an exception leaves behind in the loop's idle phase is MainLoop's
+   idle callback of that run (MainLoop.stop() is not called on that path) *)
+Lemma first_run_restartable_lemma c p rounds inputs T0 :
+  c_hook c = true -> wf_config c -> initial_modes T0 ->
+  let s1 := snd (session c p rounds inputs (init_st T0)) in
+  Restartable c T0 s1 /\
+  idle_reg s1 = (match snd (cut (plan_at p) 0 (spec_hook_session c rounds)) with Some (FRaise _) => 1%nat | _ => O end).
+Proof.
+  intros Hh Hwf Hi. cbv zeta. rewrite (initial_modes_normal T0 Hi).
+  destruct (hook_master c p rounds inputs (fst (t_tios T0)) (t_winch T0) (t_tstp T0) (t_cont T0) Hh Hwf)
+    as (_ & _ & _ & _ & _ & Re & I).
+  split; [exact Re|exact I].
+Qed.
+
+(* run() from a restartable state, stated for an arbitrary initial terminal *)
+Lemma rerun_lemma c p rounds inputs T0 s :
+  c_hook c = true -> wf_config c -> initial_modes T0 -> Restartable c T0 s ->
+  let L := spec_loop c (S (idle_reg s)) (l_pop s) (alarms s ++ [AEnteringIdle]) rounds in
+  let ct := cut (plan_at p) (n s) L in
+  let rs := ml_run c p rounds inputs s in
+  acts (snd rs) = acts s ++ fst ct /\ n (snd rs) = n s + ncb (fst ct) /\ fst rs = loop_result (snd ct) /\
+  tm (snd rs) = T0 /\ s_started (scr (snd rs)) = false /\ Restartable c T0 (snd rs) /\
+  idle_reg (snd rs) = (match snd ct with Some (FRaise _) => S (idle_reg s) | _ => idle_reg s end).
+Proof.
+  intros Hh Hwf Hi Hr. cbv zeta. revert Hr. rewrite (initial_modes_normal T0 Hi). intros Hr.
+  destruct (hook_rerun c p rounds inputs (fst (t_tios T0)) (t_winch T0) (t_tstp T0) (t_cont T0) s Hh Hwf Hr)
+    as (A & N & R & Re & I).
+  split; [exact A|split; [exact N|split; [exact R|split; [apply Re|split; [eapply restartable_stopped; exact Re|split; [exact Re|exact I]]]]]].
+Qed.
+
 (* ---------- reading the specification ---------- *)
 Lemma In_overlay_spec c t : In t (overlay_spec c) -> t = TRender.
 Proof. unfold overlay_spec. destruct (c_pop_ups c); cbn; intuition congruence. Qed.
@@ -1109,15 +1280,26 @@ Proof.
     + split; [intros _; right; reflexivity|]. intros _. right. right. left. reflexivity.
 Qed.
 
-(* every round of events ends with: render the topmost widget, then screen.draw_screen *)
-Lemma round_ends_with_redraw_lemma c o r : exists l, fst (spec_round c o r) = l ++ [TRender; TDraw].
+(* every round of events ends with: render the topmost widget, then screen.draw_screen
+   (as long as MainLoop's idle callback is registered, which start() sees to) *)
+Lemma spec_draw_ends c o : exists l, spec_draw c o = l ++ [TRender; TDraw].
 Proof.
-  unfold spec_round, spec_draw. cbn [fst].
-  destruct (pop_shown c (snd (thread (spec_event c) o r))).
-  - exists (fst (thread (spec_event c) o r) ++ overlay_spec c ++ [TRender]).
-    rewrite <- !app_assoc. reflexivity.
-  - exists (fst (thread (spec_event c) o r) ++ overlay_spec c).
-    rewrite <- !app_assoc. reflexivity.
+  unfold spec_draw. destruct (pop_shown c o).
+  - exists (overlay_spec c ++ [TRender]). rewrite <- !app_assoc. reflexivity.
+  - exists (overlay_spec c). reflexivity.
+Qed.
+Lemma spec_idle_ends c o k : exists l, spec_idle c (S k) o = l ++ [TRender; TDraw].
+Proof.
+  induction k as [|k IH].
+  - cbn [spec_idle]. rewrite app_nil_r. apply spec_draw_ends.
+  - destruct IH as [l Hl]. exists (spec_draw c o ++ l).
+    change (spec_idle c (S (S k)) o) with (spec_draw c o ++ spec_idle c (S k) o). rewrite Hl, app_assoc. reflexivity.
+Qed.
+Lemma round_ends_with_redraw_lemma c k o r : exists l, fst (spec_round c (S k) o r) = l ++ [TRender; TDraw].
+Proof.
+  unfold spec_round. cbn [fst].
+  destruct (spec_idle_ends c (snd (thread (spec_fd_event c) o r)) k) as [l Hl]. rewrite Hl.
+  eexists. rewrite !app_assoc. reflexivity.
 Qed.
 
 (* ---------- pop-up routing over whole histories of keys ---------- *)
